@@ -160,6 +160,17 @@ theorem opw_entry_points_are_source (k : Opw R) (pose : Iso R) (prev s : J6 R) (
   ⟨inverseSrc_eq k pose, inverse5dofSrc_eq k pose j6, inverseContinuing5dofSrc_eq k pose prev, inverseContinuingSrc_eq k pose prev,
    filterCompliantSrc_eq k l, compliantOptSrc_eq k s, constraintCentersSrc_eq k⟩
 
+/-- [G] one iteration of the shift loop of `inverse_continuing` as the CURRENT source text has it — the shift table, the
+unshifted answers taken first, the first singular and finite raw answer only, the recovery block (translated statement by
+statement, `singularCandidateSrc`) plugged in, pose check and limit check before the push, `break 'shifts` after it — is the
+model's `shiftStep`, and the table is the model's `shifts`; with `opw_entry_points_are_source` the whole of
+`inverse_continuing` is tied to the source (the loop over the table itself, `shiftLoop`, is the `for` of the source by
+construction of the translator's idiom) -/
+theorem shiftStep_is_source (k : Opw R) (pose : Iso R) (previous : J6 R) (sols : List (J6 R)) (d : V3 R) :
+    SrcOpw.shiftStepSrc (fun prev raw => SrcCtl.singularCandidateSrc k.p prev raw) k pose previous sols d =
+      shiftStep k pose previous sols d ∧ (SrcOpw.shiftsSrc : List (V3 R)) = shifts :=
+  ⟨shiftStepSrc_eq k pose previous sols d, shiftsSrc_eq⟩
+
 /-- [G] `Constraints::compliant` / `Constraints::filter` as the CURRENT source text defines them -/
 theorem constraints_compliant_is_source (c : Constraints R) (a : J6 R) (l : List (J6 R)) :
     SrcOpw.compliantSrc c a = c.compliant a ∧ SrcOpw.filterSrc c l = c.filter l :=
